@@ -854,7 +854,7 @@ impl PatProp for ReplaceModel {
                 // NoExpand keeps `$` literally
                 check("noexpand-dollar", re.try_replacen(t, limit, NoExpand("$0")), model(limit, &|_| "$0".to_string()))?;
                 // templates
-                for tpl in ["<$0>", "${1}x$$", "$1x", "[$2|$1]"] {
+                for tpl in ["<$0>", "${1}x$$", "$1x", "[$2|$1]", "$$", "x$$y$", "${", "$é"] {
                     let want = model(limit, &|c| model::expand(tpl, true, &CapGroups { c, t }));
                     check(tpl, re.try_replacen(t, limit, tpl), want)?;
                 }
@@ -900,7 +900,7 @@ impl PatProp for ReplaceModel {
 pub fn run_c11(ctx: &RunCtx) -> Outcome {
     let p = ReplaceModel;
     let mut o = Outcome::default();
-    o.rule = "C01 pattern space + \\G variants; per text and limit 0..=3: try_replacen equals the model 'text between the first n captures_iter matches + replacer output for those captures' for replacers {identity closure, constant via &str / NoExpand / closure / String / Cow / by_ref, NoExpand(\"$0\"), templates <$0>, ${1}x$$, $1x, [$2|$1]} (template output computed by an independent scanner), Cow::Borrowed iff no match, replace/replace_all wrappers; under backtrack_limit(1) try_replacen returns Err or the same answer, never panics. Non-trivial = >= 1 replacement and (>= 2 matches or an empty/adjacent match). Distinct = distinct (pattern, text).".into();
+    o.rule = "C01 pattern space + \\G variants; per text and limit 0..=3: try_replacen equals the model 'text between the first n captures_iter matches + replacer output for those captures' for replacers {identity closure, constant via &str / NoExpand / closure / String / Cow / by_ref, NoExpand(\"$0\"), templates <$0>, ${1}x$$, $1x, [$2|$1], $$, x$$y$, ${, $é} (template output computed by an independent scanner), Cow::Borrowed iff no match, replace/replace_all wrappers; under backtrack_limit(1) try_replacen returns Err or the same answer, never panics. Non-trivial = >= 1 replacement and (>= 2 matches or an empty/adjacent match). Distinct = distinct (pattern, text).".into();
     o.assumptions = vec!["find_iter / captures_iter are judged by C08 / C09; texts on which they err or disagree are skipped here".into()];
     o.required_classes = vec!["matches:>limit".into(), "matches:1..3".into(), "path:search-error-returned".into()];
     let pats = iter_space(ctx);
